@@ -68,6 +68,7 @@ OK09(e) ==
     ValidPacket(e.fam, e.packet) =>
         /\ e.sync.k = "ok"
         /\ e.again = e.sync /\ e.cloned = e.sync
+        /\ e.container = e.sync.bytes                 \* as_ref() exposes exactly the container's bytes
         /\ \A i \in 1..Len(e.async) : e.async[i].res.k = "ok" /\ e.async[i].sink = e.sync.bytes
         /\ StreamOK(e.sync.bytes, e.stream) /\ StreamOK(e.sync.bytes, e.stream1)
 
